@@ -248,6 +248,7 @@ func run(pl Plan) (res vfx.Result) {
 		stage = "created"
 	}
 	leftAt := time.Duration(-1)
+	leaveOKAt := time.Duration(-1)
 	peerAddr := func(i int) (string, *memberlist.Node) {
 		if len(peers) == 0 {
 			return "10.0.0.99:7946", &memberlist.Node{Name: "ghost", Addr: []byte{10, 0, 0, 99}, Port: 7946}
@@ -279,9 +280,32 @@ func run(pl Plan) (res vfx.Result) {
 				if sd {
 					return nil // excluded ordering (documented to panic)
 				}
+				smu.Lock()
+				afterOK := leaveOKAt >= 0
+				smu.Unlock()
+				l0 := c.Net.Now()
 				err := m.Leave(time.Duration(cl.Arg) * time.Millisecond)
 				desc = fmt.Sprintf("leave(%dms)=%v", cl.Arg, err)
 				bound = time.Duration(cl.Arg)*time.Millisecond + time.Millisecond
+				if afterOK {
+					// idempotent: the departure has been announced (an earlier call returned nil); there is nothing left to do or to wait for
+					if err != nil {
+						return fmt.Errorf("Leave(%dms) called after an earlier Leave had returned nil returned %v", cl.Arg, err)
+					}
+					if took := c.Net.Now() - l0; took > time.Millisecond {
+						return fmt.Errorf("Leave(%dms) called after an earlier Leave had returned nil took %v", cl.Arg, took)
+					}
+					smu.Lock()
+					lateLabels = append(lateLabels, "leave-repeated-after-success")
+					smu.Unlock()
+				}
+				if err == nil {
+					smu.Lock()
+					if leaveOKAt < 0 {
+						leaveOKAt = c.Net.Now()
+					}
+					smu.Unlock()
+				}
 				if cl.Arg == 0 {
 					// nobody to tell: nothing to wait for (10 s is far beyond any broadcast that might still be going out)
 					bound = 10 * time.Second
